@@ -436,6 +436,18 @@ def transformations():
             ("grad_custom_vjp", T_grad_custom_vjp), ("vmap_grad", T_vmap_grad), ("jit_vmap", T_jit_vmap)]
 
 
+def family_of(tname: str) -> str:
+    if "vmap" in tname:
+        return "vmap"
+    if tname.startswith("jit"):
+        return "jit"
+    if "checkpoint" in tname:
+        return "remat"
+    if "custom" in tname:
+        return "custom_ad"
+    return "ad"
+
+
 def make_inputs(shapes, axes, rng: common.Rng, B: int = 2):
     """axes[i]: None (as is), an int (insert a batch axis of size B there) or a tuple (nested vmap)."""
     xs = []
@@ -567,7 +579,8 @@ def run(chk: Check) -> None:
     res = explore(chk, rng, thorough, 1e9 if thorough else max(60.0, 200.0 - (time.time() - t0)))
     for r in res:
         if r["status"] in ("mismatch", "export_error", "ort_error"):
-            key = {"fn": r["fn"], "transform": r["transform"], "status": r["status"]}
+            key = {"fn": r["fn"], "transform": r["transform"], "family": family_of(r["transform"]),
+                   "status": r["status"]}
             found = True
             chk.finding(key, f"{r['transform']}({r['fn']}): {r['status']} {r.get('why') or r.get('error', '')}"[:260],
                         {"result": r, "how": "harness/props/c10.py run_transformed"})
